@@ -327,7 +327,7 @@ func init() {
 		Assumptions: []string{"R3's transcription of pb/biscuit.proto field numbers and of the default symbol table is the 'published schema'"},
 		NumCases: func(tier string) int {
 			if tier == "thorough" {
-				return 8000
+				return 50000
 			}
 			return 400
 		},
